@@ -35,6 +35,7 @@ class Ctx:
         self.obligations = []    # dicts: rule, key, ok, detail
         self.rules = {}          # rule id -> {'text':..., 'instances':n, 'floor':n}
         self.notes = []
+        self.pending = []        # undecided constructs: reported as NO-VERDICT at the end unless a violation was established
         self.interproc = {cfg: flow.Interproc(F) for cfg, F in facts_by_cfg.items()}
 
     # ---- rule bookkeeping
@@ -65,6 +66,11 @@ class Ctx:
 
     def missing(self, rid, symbol):
         raise NoVerdict('anchor-missing: %s %s' % (rid, symbol))
+
+    def undecided(self, rid, what):
+        """A construct the rule's model does not cover: the other rules still run; the run ends NO-VERDICT (exit 2)
+        unless some rule established a violation."""
+        self.pending.append('undecided: %s %s' % (rid, what))
 
     def need(self, thing, rid, symbol):
         if thing is None or thing == [] or thing == {}:
@@ -132,6 +138,11 @@ def main(argv):
             mod.controls(ctx)
         if not ctx.violations:
             ctx.finish_floors()     # a reported violation is a verdict; floors guard silent passes
+            if ctx.pending:
+                raise NoVerdict('; '.join(ctx.pending))
+        else:
+            for p_ in ctx.pending:
+                ctx.note('partial run: %s' % p_)
     except extract.InfraError as e:
         print('INFRA-FAILURE property=%s: %s' % (prop, e))
         return 2
